@@ -121,6 +121,32 @@ def _hand() -> dict[str, dict[str, Any]]:
         H[f"vmap_mixed_axes_out1_{nm}"] = {"fn": jax.vmap(op, in_axes=(0, 1), out_axes=1), "sig": SQ}
     H["vmap_mixed_axes_three_operands"] = {"fn": jax.vmap(lambda a, b, c: jnp.where(a > 0, b, c) + a * b - c, in_axes=(1, 0, 1)), "sig": SQ + [((4, 4), np.float32)]}
     H["vmap_mixed_axes_int_bitwise"] = {"fn": jax.vmap(lambda a, b: (a & b) | (a ^ 3), in_axes=(1, 0)), "sig": [((4, 4), np.int32), ((4, 4), np.int32)]}
+    @jax.custom_jvp
+    def cw(x, y):
+        return jnp.maximum(x, y)
+
+    @cw.defjvp
+    def cw_jvp(primals, tangents):
+        (x, y), (tx, ty) = primals, tangents
+        return cw(x, y), jnp.where(x > y, tx, 0.25 * ty)
+
+    @jax.custom_jvp
+    def cs(x, y, z):
+        return x + y * z
+
+    @cs.defjvp
+    def cs_jvp(primals, tangents):
+        (x, y, z), (tx, ty, tz) = primals, tangents
+        return cs(x, y, z), jnp.select([x > 0.2, x > 0.0], [tx, 2.0 * ty], default=3.0 * tz) + jnp.take(jnp.stack([tx, ty, tz]), jnp.array([2, 0]), axis=0).sum(0) * 0.5
+
+    XY = [((4,), np.float32), ((4,), np.float32)]
+    H["custom_jvp_where_grad_both_args"] = {"fn": jax.grad(lambda x, y: jnp.sum(cw(x, y) * jnp.arange(1.0, 5.0)), argnums=(0, 1)), "sig": XY}
+    H["custom_jvp_where_vjp_both_args"] = {"fn": lambda x, y: jax.vjp(cw, x, y)[1](jnp.arange(1.0, 5.0)), "sig": XY}
+    H["custom_jvp_select_take_grad_three_args"] = {"fn": jax.grad(lambda x, y, z: jnp.sum(cs(x, y, z) * jnp.arange(1.0, 5.0)), argnums=(0, 1, 2)), "sig": XY + [((4,), np.float32)]}
+    H["linear_transpose_where_two_operands"] = {"fn": lambda m, ct: jax.linear_transpose(lambda a, b: jnp.where(m > 0, a, 0.25 * b), m, m)(ct), "sig": XY}
+    H["linear_transpose_concat_stack"] = {"fn": lambda m, ct: jax.linear_transpose(lambda a, b: jnp.concatenate([a * 2.0, b, a - b]), m, m)(jnp.concatenate([ct, ct * 2, ct * 3])), "sig": XY}
+    H["grad_wrt_two_args_through_where_select"] = {"fn": jax.grad(lambda x, y: jnp.sum(jnp.where(x > y, x * y, jnp.select([y > 0], [x], default=y)) ** 2), argnums=(0, 1)), "sig": XY}
+    H["grad_wrt_two_args_matmul_take"] = {"fn": jax.grad(lambda a, b: jnp.sum(jnp.take(a @ b, jnp.array([1, 0]), axis=0) ** 2), argnums=(0, 1)), "sig": [((3, 4), np.float32), ((4, 2), np.float32)]}
     H["grad_through_where_and_clip"] = {"fn": jax.grad(lambda x: jnp.sum(jnp.clip(jnp.where(x > 0, x * x, -x), 0.01, 0.3))), "sig": X}
     H["grad_through_concat_reshape"] = {"fn": jax.grad(lambda x: jnp.sum(jnp.concatenate([x, x * 2], 0).reshape(-1)[::2] ** 2)), "sig": X}
     H["grad_through_take_cumsum"] = {"fn": jax.grad(lambda x: jnp.sum(jnp.cumsum(jnp.take(x, jnp.array([2, 0]), axis=1), axis=0) ** 2)), "sig": X}
